@@ -709,7 +709,7 @@ def explore(scenario, params=None, harness='h', seed=0, timeout=None, max_paths=
     params = params or {}
     t0 = time.time()
     deadline = t0 + timeout if timeout else None
-    workers = workers if workers is not None else min(16, os.cpu_count() or 1)
+    workers = workers if workers is not None else int(os.environ.get('VERIF_WORKERS') or min(16, os.cpu_count() or 1))
     total = ExploreResult()
     if workers <= 1:
         res, _, left = _explore_subtree(scenario, params, harness, seed, [], 0, deadline, max_paths, validate_every,
